@@ -304,6 +304,20 @@ func Library() []*Session {
 		{Name: "cmany", Conn: "control", Cls: "control", Ones: true, Control: func() []part {
 			return control(loginOld("guest", "", "Many"), many...)
 		}},
+		{Name: "cflood", Conn: "control", Cls: "control", Ones: true, Control: func() []part { // 200 small requests: > 64 per 4 KiB read when coalesced
+			var ts []sim.Tx
+			for i := 0; i < 200; i++ {
+				switch i % 4 {
+				case 0, 1:
+					ts = append(ts, sim.NewTx(sim.TKeepAlive, 0))
+				case 2:
+					ts = append(ts, sim.NewTx(sim.TGetUserNameList, 0))
+				default:
+					ts = append(ts, sim.NewTx(sim.TChatSend, 0, sim.Fld(sim.FData, []byte(fmt.Sprintf("l%d", i)))))
+				}
+			}
+			return control(loginOld("guest", "", "Flood"), ts...)
+		}},
 		{Name: "cpipe", Conn: "control", Cls: "control", Ones: true, Control: func() []part { // > 2 KiB
 			return control(loginOld("guest", "", "Pipe"), pipe(24, 150)...)
 		}},
